@@ -566,16 +566,231 @@ Section Proofs.
   Qed.
 
   Lemma project_self n :
-    (forall s v, wfn n (erase s) v -> project s s v = v) /\
-    (forall tfs sfs vs pos, suffix_of sfs tfs pos ->
+    (forall s v, wf_nschema s -> wfn n (erase s) v -> project s s v = v) /\
+    (forall tfs sfs vs pos, suffix_of sfs tfs pos -> wf_nfields tfs ->
         wfn_fields n (erase_fields tfs) (skipn pos vs) -> project_fields sfs vs tfs = skipn pos vs).
   Proof.
     apply (nschema_both
-      (fun s => forall v, wfn n (erase s) v -> project s s v = v)
-      (fun tfs => forall sfs vs pos, suffix_of sfs tfs pos ->
+      (fun s => forall v, wf_nschema s -> wfn n (erase s) v -> project s s v = v)
+      (fun tfs => forall sfs vs pos, suffix_of sfs tfs pos -> wf_nfields tfs ->
         wfn_fields n (erase_fields tfs) (skipn pos vs) -> project_fields sfs vs tfs = skipn pos vs)).
     - intros; reflexivity.
-    - intros fs IH v Hv. destruct v as [|vs| |]; cbn in Hv; try contradiction.
-      cbn [Model.project]. f_equal.
-  Abort.
+    - intros fs IH v [_ Hs] Hv. destruct v as [|vs| |]; cbn in Hv; try contradiction.
+      cbn [Model.project]. f_equal. apply (IH fs vs 0); auto. now apply suffix_self.
+    - intros sfs vs pos _ _ Hv. cbn in Hv. destruct (skipn pos vs); [reflexivity|contradiction].
+    - intros nm rp t IHt tfs IHf sfs vs pos Hsuf Hw Hv.
+      destruct Hw as (_ & Hwt & Hwf).
+      inversion Hsuf as [|? ? ? ? off ? Hf Hsuf']; subst.
+      rewrite project_fields_cons, Hf. cbn [erase_fields] in Hv.
+      destruct (skipn pos vs) as [|fv rest] eqn:Es; [destruct rp; contradiction|].
+      destruct (skipn_cons_nth _ _ _ _ Es) as [Hn Hrest]. rewrite Hn.
+      destruct (fields_unfold n rp (erase t) (erase_fields tfs) fv rest 0 0 0 Hv) as (_ & Hfw & Hvs).
+      rewrite <- Hrest in Hvs. rewrite (IHf sfs vs (S pos) Hsuf' Hwf Hvs), Hrest.
+      f_equal. destruct rp; cbn [field_wfn] in Hfw.
+      + now apply IHt.
+      + destruct fv as [| |[v0|]|]; try contradiction; [|reflexivity]. now rewrite IHt.
+      + destruct fv as [| | |l]; try contradiction. destruct Hfw as [_ Hl]. f_equal.
+        rewrite <- (map_id l) at 2. apply map_ext_in. intros y Hy.
+        rewrite Forall_forall in Hl. apply IHt; auto.
+  Qed.
+
+  Lemma compat_self :
+    (forall s, wf_nschema s -> compat s s = true) /\
+    (forall tfs sfs pos, suffix_of sfs tfs pos -> wf_nfields tfs -> compat_fields sfs tfs = true).
+  Proof.
+    apply (nschema_both
+      (fun s => wf_nschema s -> compat s s = true)
+      (fun tfs => forall sfs pos, suffix_of sfs tfs pos -> wf_nfields tfs -> compat_fields sfs tfs = true)).
+    - intros ty _. cbn. apply N.eqb_refl.
+    - intros fs IH [_ Hs]. cbn. apply (IH fs 0); auto. now apply suffix_self.
+    - reflexivity.
+    - intros nm rp t IHt tfs IHf sfs pos Hsuf (_ & Hwt & Hwf).
+      inversion Hsuf as [|? ? ? ? off ? Hf Hsuf']; subst.
+      cbn [compat_fields]. rewrite Hf, (IHf sfs (S pos) Hsuf' Hwf), (IHt Hwt).
+      destruct rp; reflexivity.
+  Qed.
+
+  Lemma nschema_eqb_eq :
+    (forall a b, nschema_eqb a b = true -> a = b) /\
+    (forall a b, nfields_eqb a b = true -> a = b).
+  Proof.
+    apply (nschema_both (fun a => forall b, nschema_eqb a b = true -> a = b)
+                        (fun a => forall b, nfields_eqb a b = true -> a = b)).
+    - intros ty [ty'|fs] H; cbn in H; [|discriminate]. apply N.eqb_eq in H. now subst.
+    - intros fs IH [ty'|fs'] H; cbn in H; [discriminate|]. f_equal. now apply IH.
+    - intros [|] H; cbn in H; [reflexivity|discriminate].
+    - intros n r s IHs fs IHf [|m q t fs'] H; cbn in H; [discriminate|].
+      apply andb_true_iff in H. destruct H as [H H4]. apply andb_true_iff in H. destruct H as [H H3].
+      apply andb_true_iff in H. destruct H as [H1 H2]. apply N.eqb_eq in H1.
+      assert (r = q) by (destruct r, q; cbn in H2; congruence).
+      subst. f_equal; auto.
+  Qed.
+
+  (** ** the theorems *)
+
+  (* one row, general path *)
+  Theorem convert_is_shred_project src tgt v n :
+    compat src tgt = true -> wf_nschema src -> wfn n (erase src) v ->
+    conv (plan src tgt 0 0) (shred_row (erase src) v) = shred_row (erase tgt) (project src tgt v).
+  Proof. intros Hc Hs Hv. unfold shred_row. eapply (proj1 convert_shred); eauto. Qed.
+
+  Theorem convert_general_is_projection src tgt v n tails :
+    compat src tgt = true -> wf_nschema src -> wf_nschema tgt -> wfn n (erase src) v ->
+    length tails = nl tgt -> heads_le V 0 tails ->
+    asm (erase tgt) 0 0 (S n)
+        (zipapp (convert_columns_general V zero src tgt (shred_row (erase src) v)) tails)
+    = Some (project src tgt v, tails).
+  Proof.
+    intros Hc Hs Ht Hv Hl Hh. unfold convert_columns_general.
+    rewrite (convert_is_shred_project src tgt v n) by assumption.
+    unfold shred_row. apply asm_shred; auto.
+    - now apply wf_erase.
+    - eapply (proj1 (project_wfn n)); eauto.
+  Qed.
+
+  (* Convert + conversion.Convert with the identity shortcut and the rejection *)
+  Theorem convert_is_projection src tgt v n tails :
+    compat src tgt = true -> wf_nschema src -> wf_nschema tgt -> wfn n (erase src) v ->
+    length tails = nl tgt -> heads_le V 0 tails ->
+    exists cols, convert_columns V zero src tgt (shred_row (erase src) v) = Some cols /\
+      asm (erase tgt) 0 0 (S n) (zipapp cols tails) = Some (project src tgt v, tails).
+  Proof.
+    intros Hc Hs Ht Hv Hl Hh. unfold convert_columns.
+    destruct (nschema_eqb src tgt) eqn:E.
+    - apply (proj1 nschema_eqb_eq) in E. subst tgt. eexists; split; [reflexivity|].
+      rewrite (proj1 (project_self n)) by assumption.
+      unfold shred_row. apply asm_shred; auto. now apply wf_erase.
+    - rewrite Hc. eexists; split; [reflexivity|].
+      now apply (convert_general_is_projection src tgt v n tails).
+  Qed.
+
+  (* sequences of rows: count and order *)
+  Definition concat_rows (width : nat) (rows : list (list column)) : list column :=
+    fold_right zipapp (repeat [] width) rows.
+
+  Lemma concat_rows_cols s (vs : list value) :
+    concat_rows (nleaves s) (map (shred_row s) vs) = rows_cols V s vs.
+  Proof. induction vs as [|v vs IH]; cbn; [reflexivity|]. now rewrite <- IH. Qed.
+
+  Theorem convert_rows_preserved src tgt vs n :
+    compat src tgt = true -> wf_nschema src -> wf_nschema tgt -> Forall (wfn n (erase src)) vs ->
+    exists rows, convert_rows V zero src tgt (map (shred_row (erase src)) vs) = Some rows /\
+      length rows = length vs /\
+      asm_rows (length vs) (erase tgt) (S n) (concat_rows (nl tgt) rows)
+      = Some (map (project src tgt) vs).
+  Proof.
+    intros Hc Hs Ht Hv.
+    assert (Hrows : exists rows, convert_rows V zero src tgt (map (shred_row (erase src)) vs) = Some rows /\
+                      rows = map (shred_row (erase tgt)) (map (project src tgt) vs)).
+    { unfold convert_rows. destruct (nschema_eqb src tgt) eqn:E.
+      - apply (proj1 nschema_eqb_eq) in E. subst tgt. eexists; split; [reflexivity|].
+        rewrite map_map. apply map_ext_in. intros v Hin. rewrite Forall_forall in Hv.
+        now rewrite (proj1 (project_self n)) by auto.
+      - rewrite Hc. eexists; split; [reflexivity|].
+        rewrite !map_map. apply map_ext_in. intros v Hin. rewrite Forall_forall in Hv.
+        apply (convert_is_shred_project src tgt v n); auto. }
+    destruct Hrows as (rows & E & ->). exists (map (shred_row (erase tgt)) (map (project src tgt) vs)).
+    split; [exact E|]. split; [now rewrite !map_length|].
+    unfold nl. rewrite concat_rows_cols.
+    assert (Hp : Forall (wfn n (erase tgt)) (map (project src tgt) vs)).
+    { apply Forall_forall. intros y Hy. apply in_map_iff in Hy. destruct Hy as (v & <- & Hin).
+      rewrite Forall_forall in Hv. eapply (proj1 (project_wfn n)); eauto. }
+    rewrite <- (map_length (project src tgt) vs).
+    rewrite <- (shred_rows_eq V _ (wf_erase _ Ht)).
+    - apply asm_rows_shred_rows; auto. now apply wf_erase.
+    - eapply Forall_impl; [|exact Hp]. apply wfn_wf.
+  Qed.
+
+  (* the shortcut taken for equal schemas agrees with the general path *)
+  Theorem convert_identity s v n :
+    wf_nschema s -> wfn n (erase s) v ->
+    convert_columns V zero s s (shred_row (erase s) v) = Some (shred_row (erase s) v) /\
+    convert_columns_general V zero s s (shred_row (erase s) v) = shred_row (erase s) v /\
+    project s s v = v.
+  Proof.
+    intros Hs Hv. split; [|split].
+    - unfold convert_columns.
+      assert (E : nschema_eqb s s = true).
+      { clear. assert (H : (forall a, nschema_eqb a a = true) /\ (forall a, nfields_eqb a a = true)).
+        { apply (nschema_both (fun a => nschema_eqb a a = true) (fun a => nfields_eqb a a = true)).
+          - intros; cbn; apply N.eqb_refl.
+          - intros fs IH; exact IH.
+          - reflexivity.
+          - intros n r s' IHs fs IHf. cbn. rewrite N.eqb_refl, IHs, IHf. destruct r; reflexivity. }
+        apply H. }
+      now rewrite E.
+    - unfold convert_columns_general.
+      rewrite (convert_is_shred_project s s v n); auto; [|now apply (proj1 compat_self)].
+      now rewrite (proj1 (project_self n)).
+    - now apply (proj1 (project_self n)).
+  Qed.
+
+  (** ** incompatible targets *)
+
+  (* two same-named nodes that do not agree *)
+  Inductive clash : nschema -> nschema -> Prop :=
+  | clash_leaf_group : forall ty fs, clash (NLeaf ty) (NGroup fs)
+  | clash_group_leaf : forall fs ty, clash (NGroup fs) (NLeaf ty)
+  | clash_type : forall a b, a <> b -> clash (NLeaf a) (NLeaf b)
+  | clash_field : forall sfs tfs, clash_fields sfs tfs -> clash (NGroup sfs) (NGroup tfs)
+  with clash_fields : nfields -> nfields -> Prop :=
+  | clash_here_rep : forall sfs nm rp t tfs off pos rs s,
+      find_field nm sfs 0 0 = Some (off, pos, rs, s) -> rs <> rp ->
+      clash_fields sfs (NCons nm rp t tfs)
+  | clash_here_node : forall sfs nm rp t tfs off pos rs s,
+      find_field nm sfs 0 0 = Some (off, pos, rs, s) -> clash s t ->
+      clash_fields sfs (NCons nm rp t tfs)
+  | clash_later : forall sfs nm rp t tfs, clash_fields sfs tfs -> clash_fields sfs (NCons nm rp t tfs).
+
+  Scheme clash_mut := Induction for clash Sort Prop
+  with clash_fields_mut := Induction for clash_fields Sort Prop.
+
+  Lemma clash_not_compat : forall src tgt, clash src tgt -> compat src tgt = false.
+  Proof.
+    apply (clash_mut (fun src tgt _ => compat src tgt = false)
+                     (fun sfs tfs _ => compat_fields sfs tfs = false)).
+    - reflexivity.
+    - reflexivity.
+    - intros a b Hab. cbn. apply N.eqb_neq. congruence.
+    - intros sfs tfs _ IH. exact IH.
+    - intros sfs nm rp t tfs off pos rs s Hf Hne. cbn [compat_fields]. rewrite Hf.
+      destruct rs, rp; try congruence; reflexivity.
+    - intros sfs nm rp t tfs off pos rs s Hf _ IH. cbn [compat_fields]. rewrite Hf, IH.
+      now rewrite andb_false_r.
+    - intros sfs nm rp t tfs _ IH. cbn [compat_fields]. rewrite IH. apply andb_false_r.
+  Qed.
+
+  Lemma not_compat_clash :
+    (forall tgt src, compat src tgt = false -> clash src tgt) /\
+    (forall tfs sfs, compat_fields sfs tfs = false -> clash_fields sfs tfs).
+  Proof.
+    apply (nschema_both (fun tgt => forall src, compat src tgt = false -> clash src tgt)
+                        (fun tfs => forall sfs, compat_fields sfs tfs = false -> clash_fields sfs tfs)).
+    - intros ty [ty'|sfs] H; [|constructor]. cbn in H. apply N.eqb_neq in H. constructor. congruence.
+    - intros tfs IH [ty'|sfs] H; [constructor|]. constructor. now apply IH.
+    - intros sfs H. discriminate.
+    - intros nm rp t IHt tfs IHf sfs H. cbn [compat_fields] in H.
+      apply andb_false_iff in H. destruct H as [H|H]; [|apply clash_later; now apply IHf].
+      destruct (find_field nm sfs 0 0) as [[[[off pos] rs] s]|] eqn:Ef; [|discriminate].
+      apply andb_false_iff in H. destruct H as [H|H].
+      + eapply clash_here_rep; [exact Ef|]. intros ->. destruct rp; discriminate.
+      + eapply clash_here_node; [exact Ef|]. now apply IHt.
+  Qed.
+
+  Theorem incompatible_rejected src tgt cols :
+    wf_nschema src -> clash src tgt -> convert_columns V zero src tgt cols = None.
+  Proof.
+    intros Hs Hc. pose proof (clash_not_compat _ _ Hc) as Hn. unfold convert_columns.
+    destruct (nschema_eqb src tgt) eqn:E.
+    - apply (proj1 nschema_eqb_eq) in E. subst tgt.
+      rewrite (proj1 compat_self src Hs) in Hn. discriminate.
+    - now rewrite Hn.
+  Qed.
+
+  Theorem rejected_only_if_clash src tgt cols :
+    convert_columns V zero src tgt cols = None -> clash src tgt.
+  Proof.
+    unfold convert_columns. destruct (nschema_eqb src tgt); [discriminate|].
+    destruct (compat src tgt) eqn:E; [discriminate|]. intros _. now apply (proj1 not_compat_clash).
+  Qed.
 End Proofs.
